@@ -51,8 +51,3 @@ impl RequestCancellation {
 impl Span {
     #[verifier::external_body] pub fn model_new() -> (r: Span) { unimplemented!() }
 }
-
-/// `crate::cancellations::cancellations()`: the two halves of one fresh cancellation queue (the function itself is two
-/// lines around `mpsc::unbounded_channel()`; A-mpsc)
-#[verifier::external_body]
-pub fn cancellations_model() -> (r: (RequestCancellation, CanceledRequests)) { unimplemented!() }
